@@ -1,9 +1,13 @@
 (** * C03 - Exactly min(configured winners, confirmed tickets) distinct tickets win.
-    Proved here: the base lottery (all variants) and the filter cap.  The statement for the
-    additional step of the guaranteed-ticket variants is in C11 / C12 (see DESIGN.md for what is
-    proved there and what is covered by the correspondence check only). *)
+    Proved here: the base lottery (all variants), the filter cap, and the additional step of the
+    guaranteed-ticket variants: when it completes - in one call or after any interruption schedule -
+    the number of marked tickets of 1..n equals the reported winners, which is
+    min(base winners + reserved tickets of the listed holders, n); proceeds grow by price x the
+    additional winners.  (Holders' guarantees: C11.  base winners + reserved = configured winners:
+    C12.) *)
 From Coq Require Import Permutation.
-From LP Require Import Proofs.Tactics Proofs.FisherYates Proofs.Shuffle Proofs.Rng Proofs.Select Proofs.Filter Proofs.Examples.
+From LP Require Import Proofs.Tactics Proofs.Loop Proofs.Resume Proofs.FisherYates Proofs.Shuffle Proofs.Rng Proofs.Select
+  Proofs.Filter Proofs.Resume3 Proofs.GuaranteedLoop Proofs.Leftover Proofs.Examples.
 Open Scope N_scope.
 
 (** After the completed base selection exactly [nr_winning] tickets are marked, they are distinct,
@@ -45,13 +49,81 @@ Theorem C03_filter_cap : forall e b w w' l,
   last_ticket_id (st w') = sumN (confs (st w) l).
 Proof. exact filter_cap. Qed.
 
+(** the state the base selection leaves satisfies the structural hypotheses of the additional step:
+    the positions after the winners hold distinct ids of 1..n, the ids no longer there are winning,
+    and marked tickets = reported winners *)
+Theorem C03_base_shape : forall (H : list N -> list N) e b w w' sd rest,
+  op (st w) = OpNone -> seeds w = sd :: rest ->
+  fresh_shuffle (st w) ->
+  nr_winning (st w) <= last_ticket_id (st w) ->
+  select_winners H e b w = Ok (w', 0) ->
+  let n := last_ticket_id (st w) in
+  (exists wins, DInv n (st w') (nr_winning (st w) + 1) wins) /\
+  count_winning (st w') (range_ids 1 n) = nr_winning (st w).
+Proof. exact select_winners_completed_shape. Qed.
+
+(** the additional step (gt1 mig lgt: [v2 = false]; gt2: [v2 = true]), completed after any
+    interruption schedule, from a state [dist_ready] (no operation pending, duplicate-free holder
+    list, ranges inside 1..n, the shape above, v2: confirmed <= allocation) *)
+Theorem C03_final : forall (H : list N -> list N) v2 l w wk e b w',
+  dist_ready v2 (st w) ->
+  after_interrupted (distribute_guaranteed_tickets H v2) l w = Some wk ->
+  distribute_guaranteed_tickets H v2 e b wk = Ok (w', 0) ->
+  let n := last_ticket_id (st w) in
+  count_winning (st w') (range_ids 1 n) = nr_winning (st w') /\
+  nr_winning (st w') = N.min (nr_winning (st w) + total_reserved v2 (st w)) n /\
+  claimable_payment (st w') = claimable_payment (st w) + price (st w) * (nr_winning (st w') - nr_winning (st w)) /\
+  last_ticket_id (st w') = n.
+Proof. exact distribute_counts_interrupted. Qed.
+
+(** the combined step of ngt *)
+Theorem C03_final_ngt : forall (H : list N -> list N) l w wk e b w',
+  dist_ready false (st w) -> nft_disjoint w ->
+  after_interrupted (secondary_selection_step H) l w = Some wk ->
+  secondary_selection_step H e b wk = Ok (w', 0) ->
+  let n := last_ticket_id (st w) in
+  count_winning (st w') (range_ids 1 n) = nr_winning (st w') /\
+  nr_winning (st w') = N.min (nr_winning (st w) + total_reserved false (st w)) n /\
+  claimable_payment (st w') = claimable_payment (st w) + price (st w) * (nr_winning (st w') - nr_winning (st w)) /\
+  last_ticket_id (st w') = n.
+Proof. exact secondary_counts_interrupted. Qed.
+
+(** every reserved ticket handed out in the leftover phase marks exactly one existing ticket that
+    was not winning: one step of the loop *)
+Theorem C03_leftover_step : forall (H : list N -> list N) v2 nrw last tot w o w' o' c,
+  LInv v2 nrw last tot (w, o) ->
+  leftover_body H v2 nrw last (w, o) = Ok (w', o', c) ->
+  LInv v2 nrw last tot (w', o') /\ (c = false -> g_leftover o' = 0 /\ w' = w) /\
+  bal w' = bal w /\ evs w' = evs w /\
+  (exists f g, st w' = st w <| status := f |> <| pos2id := g |>) /\
+  (forall t, status (st w) t = true -> status (st w') t = true).
+Proof. exact leftover_body_LInv. Qed.
+
 Example C03_nonvacuous :
   nr_winning (st base_selected) = 2 /\
   length (filter (status (st base_selected)) (range_ids 1 4)) = 2%nat /\
   claimable_payment (st base_selected) = 2000.
 Proof. vm_compute. repeat split. Qed.
 
+(** Non-vacuity of [C03_final]: in the gt2 sale of [Examples] the decidable hypotheses hold after the
+    base selection (1 base winner, 2 reserved tickets, 9 confirmed tickets) and the completed step
+    (interrupted once) reports 3 = min(1 + 2, 9) winners, all marked. *)
+Example C03_final_nonvacuous :
+  let s0 := st gt2_selected in let s1 := st gt2_done in
+  op s0 = OpNone /\ gt_users s0 = [2; 3] /\ last_ticket_id s0 = 9 /\
+  count_winning s0 (range_ids 1 9) = nr_winning s0 /\ nr_winning s0 = 1 /\ total_reserved true s0 = 2 /\
+  map (range s0) [2; 3; 4] = [Some (1, 3); Some (4, 5); Some (6, 9)] /\
+  fl_additional (st gt2_half) = false /\
+  count_winning s1 (range_ids 1 9) = 3 /\ nr_winning s1 = 3 /\
+  claimable_payment s1 = claimable_payment s0 + price s0 * 2.
+Proof. vm_compute. repeat split. Qed.
+
 Print Assumptions C03_base.
 Print Assumptions C03_invariant.
 Print Assumptions C03_filter_cap.
+Print Assumptions C03_base_shape.
+Print Assumptions C03_final.
+Print Assumptions C03_final_ngt.
+Print Assumptions C03_leftover_step.
+Print Assumptions C03_final_nonvacuous.
 Print Assumptions C03_nonvacuous.
